@@ -208,9 +208,12 @@ def run(ctx):
     # sample shape
     from ..dep import Deps
     ddm = Deps(dm.node)
-    scalls = [c for c in A.calls_in(dm.node) if A.call_attr(c) == "sample" and c.args]
-    ss = scalls
-    if scalls and all(ddm.depends_on(c.args[0], "self.ntoys") for c in scalls):
+    scalls = [(c, ddm) for c in A.calls_in(dm.node) if A.call_attr(c) == "sample" and c.args]
+    for h_ in repo.helpers_of(dm, depth=1):  # drawing may be a method of its own (`_sample_at_conditional_fit`)
+        dh_ = Deps(h_.node)
+        scalls.extend((c, dh_) for c in A.calls_in(h_.node) if A.call_attr(c) == "sample" and c.args)
+    ss = [c for c, _ in scalls]
+    if scalls and all(d_.depends_on(c.args[0], "self.ntoys") for c, d_ in scalls):
         ctx.holds(r2, f"{CALC}::ToyCalculator.distributions", "sample_shape = (ntoys,)")
     else:
         ctx.violated(r2, dm, "sample_shape", "the number of toys drawn is not self.ntoys", node=ss[0] if ss else dm.node)
